@@ -41,7 +41,32 @@ def _call(ex, f, args, kwargs, fr):
     return VOpaque("xr", ex.st.fresh_int("xr"), {"label": f"{f.info.get('label')}()", "args": list(args), "kwargs": dict(kwargs), "fn": f})
 
 
+# parameter names of the library constructors / functions whose calls the contracts inspect: a call is recorded in ONE canonical style
+# (first parameter positional, the others by keyword) whatever style the code under test uses
+SIGNATURES = {
+    "pandas.MultiIndex.from_product": ["iterables", "sortorder", "names"], "pandas.Series": ["data", "index", "dtype", "name"], "pandas.DataFrame": ["data", "index", "columns", "dtype"],
+    "pandas.concat": ["objs", "axis", "join", "ignore_index"], "xarray.DataArray": ["data", "coords", "dims", "name", "attrs"], "xarray.Dataset": ["data_vars", "coords", "attrs"],
+    "xarray.concat": ["objs", "dim"], "xarray.merge": ["objects"], "xarray.combine_by_coords": ["data_objects"], "xarray.DataTree.from_dict": ["d", "name"],
+    "xarray.DataArray.from_dict": ["d"], "dask.array.from_delayed": ["value", "shape", "dtype"], "dask.delayed.delayed": ["obj"], "dask.delayed": ["obj"],
+}
+
+
+def canonical_call(name, args, kwargs):
+    sig = SIGNATURES.get(name)
+    if not sig:
+        return list(args), dict(kwargs)
+    args, kwargs = list(args), dict(kwargs)
+    if not args and sig[0] in kwargs:
+        args = [kwargs.pop(sig[0])]
+    for i in range(len(args) - 1, 0, -1):
+        if i < len(sig) and sig[i] not in kwargs:
+            kwargs[sig[i]] = args[i]
+            del args[i]
+    return args, kwargs
+
+
 def _lib_call(ex, f, args, kwargs, fr):
+    args, kwargs = canonical_call(f.name, args, kwargs)
     ex.st.events.append(("lib_call", f.name, list(args), dict(kwargs)))
     return VOpaque("xr", ex.st.fresh_int("xr"), {"label": f.name + "()", "args": list(args), "kwargs": dict(kwargs)})
 
